@@ -184,6 +184,31 @@ pub async fn shutdown<C: Config>(mut engine: Arc<Engine<C>>) -> bool {
     false
 }
 
+/// `nodes` in dependency order (callees first; DFS post-order, back edges of
+/// cyclic programs ignored).
+pub fn topo_order(prog: &Program, nodes: &[NodeId]) -> Vec<NodeId> {
+    fn go(prog: &Program, n: NodeId, seen: &mut HashSet<NodeId>, out: &mut Vec<NodeId>) {
+        if !seen.insert(n) {
+            return;
+        }
+        for d in prog.static_deps(n) {
+            if d.kind != Kind::In && d.kind != Kind::X {
+                go(prog, d, seen, out);
+            }
+        }
+        out.push(n);
+    }
+    let mut seen = HashSet::new();
+    let mut out = Vec::new();
+    let mut sorted = nodes.to_vec();
+    sorted.sort();
+    for n in sorted {
+        go(prog, n, &mut seen, &mut out);
+    }
+    out.retain(|n| nodes.contains(n));
+    out
+}
+
 /// User-level repair of the transitive firewall callees of `nodes` (masks the
 /// known finding C01-F1 in checks whose subject is something else).
 pub async fn prerepair_tfc<C: Config>(t: &TrackedEngine<C>, nodes: &[NodeId]) {
@@ -738,9 +763,8 @@ pub async fn run_sequential<B: Backend>(
                     // user repair the transitive firewall callees of every node
                     // computed so far before anything is queried.
                     let t = engine.clone().tracked().await;
-                    let mut known: Vec<NodeId> = or.last_run.keys().copied().collect();
-                    known.sort();
-                    for n in known {
+                    let known: Vec<NodeId> = or.last_run.keys().copied().collect();
+                    for n in topo_order(&prog, &known) {
                         match n.kind {
                             Kind::N => t.repair_transitive_firewall_callees(&N(n.idx)).await,
                             Kind::F => t.repair_transitive_firewall_callees(&F(n.idx)).await,
